@@ -18,7 +18,8 @@ func init() {
 		decided: "frames are balanced on every path after which the run can continue (frame typestate over all functions of package lang, push/pop primitives discovered from their stores to Evaluator.stackTop); only the two primitives store stackTop; unknown names are created in the innermost frame and globals in the root frame; the depth test precedes the push; parameters are bound by position to fresh cells, missing ones to null." +
 			" setGlobal is only used for the interpreter's $-names; every pushed frame is one deeper than its parent; control-flow signals are never rebuilt into other errors; the return slot is written by the return arm and read by callFunction only." +
 			" The list of evaluated argument expressions is made per call and not kept." +
-			" The program's functions are installed after the runtime functions; loops pass a return signal through.",
+			" The program's functions are installed after the runtime functions; loops pass a return signal through." +
+			" The bindings of a match case are stored into the frame pushed for that match.",
 		notDecided: "value semantics of return beyond the binding rule, behaviour of recursion as such.",
 	})
 }
